@@ -66,7 +66,7 @@ func main() {
 	c := vk.Init("C14")
 	can = rig.StartCanary()
 	defer can.Stop()
-	c.Rule("TestReqID values: every single byte value except SOH (255), 40 decoys ('112=', '10=000', '35=A', '=', spaces, digits, NUL, high bytes, text resembling other fields), lengths up to 10000, random strings; each injected at every kind of position of a logged-on history (directly after logon, several in a row, between Heartbeats / application messages / rejected messages / local sends), both roles; every fifth session on a counter store that fails once to record the TestRequest's incoming number; every fifth session with an application OnError handler that sends an alert through the session, and Rejects failing on transient store faults before some of the TestRequests; plus real-time sessions (N=1) in which the session's own TestRequest is pending when the peer's TestRequests arrive; plus real-time sessions observed for 2.4 s after an answer (the periodic Heartbeats that follow must not carry the TestReqID again); plus sessions on the full stack (scripted net.Conn, connection reader/writer) given identifiers of 1..70000 bytes incl. every length 4088..4104 and 8184..8200, and bursts of 40 TestRequests against a slowly reading peer (handler buffers 0/1/4/10; answers must come in request order). Oracle per TestRequest step: exactly one message emitted in that step (so before any later reply), MsgType 0, its 112 value (reference tokenizer) byte-equal to the ID. distinct = distinct (ID bytes, role, context); non-trivial = all")
+	c.Rule("TestReqID values: every single byte value except SOH (255), 40 decoys ('112=', '10=000', '35=A', '=', spaces, digits, NUL, high bytes, text resembling other fields), lengths up to 10000, random strings; each injected at every kind of position of a logged-on history (directly after logon, several in a row, between Heartbeats / application messages / rejected messages / local sends), both roles; every fifth session on a counter store that fails once to record the TestRequest's incoming number; every fifth session with an application OnError handler that sends an alert through the session, and Rejects failing on transient store faults before some of the TestRequests; plus real-time sessions (N=1) in which the session's own TestRequest is pending when the peer's TestRequests arrive; plus real-time sessions observed for 2.4 s after an answer (the periodic Heartbeats that follow must not carry the TestReqID again); plus sessions on the full stack (scripted net.Conn, connection reader/writer) given identifiers of 1..70000 bytes incl. every length 4088..4104 and 8184..8200, and bursts of 40 TestRequests against a slowly reading peer (handler buffers 0/1/4/10; answers must come in request order); plus answers whose write stalls after 1..60 bytes until the write deadline: the connection is ended, or the peer has received one well-formed Heartbeat. Oracle per TestRequest step: exactly one message emitted in that step (so before any later reply), MsgType 0, its 112 value (reference tokenizer) byte-equal to the ID. distinct = distinct (ID bytes, role, context); non-trivial = all")
 	n := c.Pick(700, 12000)
 	vk.Parallel(n, runtime.NumCPU(), func(i int) {
 		r := c.Rand("c14", int64(i))
@@ -286,6 +286,7 @@ func main() {
 	}
 	wg.Wait()
 	fullStack(c)
+	stalledAnswer(c)
 	c.Finish()
 }
 
@@ -450,4 +451,76 @@ func max(a, b int) int {
 		return a
 	}
 	return b
+}
+
+// stalledAnswer: the peer's window fills up in the middle of the Heartbeat that answers its TestRequest — the first
+// bytes are taken, the rest is not, and the write deadline expires; afterwards the peer reads again. Either the
+// connection is ended (then nothing more is owed), or it goes on — and then what the peer received for that
+// TestRequest is one well-formed Heartbeat with its TestReqID, not fragments of one.
+func stalledAnswer(c *vk.Ctx) {
+	var wg sync.WaitGroup
+	for i := 0; i < c.Pick(8, 48); i++ {
+		wg.Add(1)
+		go func(i int) {
+			defer wg.Done()
+			role := rig.Role(i % 2)
+			taken := []int{1, 7, 20, 40, 60}[(i/2)%5]
+			desc := fmt.Sprintf("%s: the write of the Heartbeat answer stalls after %d bytes until the write deadline (150 ms), then the peer reads again", role, taken)
+			f, err := rig.StartFull(rig.FullCfg{Role: role, HeartBtInt: 30, BufSize: []int{0, 4}[(i/10)%2], WriteTimeout: 150 * time.Millisecond, Notify: true, Label: fmt.Sprintf("c14-stall-%d", i)})
+			if err != nil {
+				c.Inconclusive("rig: " + err.Error())
+				return
+			}
+			defer f.Shutdown()
+			var l *rig.Link
+			if role == rig.Acceptor {
+				if l, err = f.Connect("c14-stall"); err != nil {
+					c.Inconclusive("connect: " + err.Error())
+					return
+				}
+			} else {
+				l = f.Links[0]
+			}
+			if !l.Logon(role, 30, 5*time.Second) {
+				c.Inconclusive("stalled-answer logon did not complete")
+				return
+			}
+			l.Conn.PartialStallAt(len(l.Conn.Writes())+1, taken)
+			l.Conn.Feed(l.Peer.TestRequest("TR-ONE"))
+			time.Sleep(700 * time.Millisecond) // several write deadlines
+			closed, _ := l.Conn.Closed()
+			c.Eval(vk.Hash64([]byte(desc), []byte{byte(i)}), true)
+			c.Count("answers_whose_write_stalled_midway", 1)
+			if closed {
+				c.Count("stalled_answers_after_which_the_connection_was_ended", 1)
+				return
+			}
+			// the connection lives on: the peer must have received one well-formed answer
+			l.Conn.Feed(l.Peer.TestRequest("TR-TWO"))
+			l.WaitFrames(2*time.Second, func(fs []rig.Frame) bool {
+				for _, fr := range fs {
+					if fr.Type == "0" && fixref.GetS(fr.Fields, rig.TTestReqID) == "TR-TWO" {
+						return true
+					}
+				}
+				return false
+			})
+			stream := l.Conn.Written()
+			msgs, rest := fixref.SplitStream("10", stream)
+			good := 0
+			for _, m := range msgs {
+				if fixref.CheckFrame(fixref.Std, m) != nil {
+					continue
+				}
+				fs, _ := fixref.TokenizeLoose(m)
+				if fixref.GetS(fs, "35") == "0" && fixref.GetS(fs, rig.TTestReqID) == "TR-ONE" {
+					good++
+				}
+			}
+			if good != 1 || len(rest) != 0 {
+				c.Violate("C14/not-exactly-one-heartbeat/write-stalled-midway", fmt.Sprintf("%s: the session went on serving, but the peer received %d well-formed Heartbeats for TR-ONE; the outbound stream: %s", desc, good, vk.Trunc(fixref.Pretty(stream), 600)), map[string]interface{}{"case": desc, "index": i})
+			}
+		}(i)
+	}
+	wg.Wait()
 }
